@@ -1451,8 +1451,10 @@ class ForAll(BinaryOperator):
         required_vars.update(super()._required_variables_from_child_(child, when_true))
         if child is self.right:
             # the rows of the condition are intersected per value of the universal variable, so a row that was
-            # already produced for another value of it is not a duplicate.
+            # already produced for another value of it is not a duplicate, and neither is a row that differs in a
+            # variable of the condition that nothing else in the query mentions.
             required_vars.update(self.left._unique_variables_)
+            required_vars.update(self.right._unique_variables_)
         return required_vars
 
     @property
